@@ -223,6 +223,21 @@ theorem preempt_ok {w : World} {p : Pid} {pl : Nat} {x : Pool} (hi : PoolInv w) 
     sig = sigSuccess ∧ heldOf (poolLoop w p pl rem ini true).1 pl p = heldOf w pl p + rem :=
   poolLoop_preempt_ok hi hp hx rem ini hrem hr
 
+/-- … and when a pass of preempt does not return, the caller has received exactly the part of its claim that the pass took
+    off it (free units plus the victims' holdings): `held + outstanding claim` is conserved, the claim stays positive -/
+theorem preempt_partial {w : World} {p : Pid} {pl : Nat} {x : Pool} (hi : PoolInv w) (hp : p < w.procs.size)
+    (hx : w.pools[pl]? = some x) (rem ini : Nat) (hrem : 0 < rem)
+    (hr : (poolLoop w p pl rem ini true).2 = .blocked) :
+    ∃ w1 rem', poolLoop w p pl rem ini true = block w1 p (.pool pl rem' ini true) ∧ 0 < rem' ∧ rem' ≤ rem ∧
+      heldOf w1 pl p + rem' = heldOf w pl p + rem :=
+  poolLoop_preempt_partial hi hp hx rem ini hrem hr
+
+/-- **acquire_ok / preempt_ok for a whole call** (`ClaimRun`: acquire or preempt as the sequence of its passes, anything —
+    including a preemption of the waiting caller — happening in between): the passes together hand the caller at most
+    the claim, and exactly the claim `n` when the call returns success -/
+theorem claim_ok_whole_call {p : Pid} {pl : Nat} {pre : Bool} {n ini m : Nat} {sig : Int}
+    (h : ClaimRun p pl pre n ini m sig) (hn : 0 < n) : m ≤ n ∧ (sig = sigSuccess → m = n) := h.exact hn
+
 /-- the mugging loop as a whole (any number of victims) keeps the invariant: units only move between records -/
 theorem preempt_conserves (fuel : Nat) (w : World) (p : Pid) (pl rem : Nat) (hi : PoolInv w) (hp : p < w.procs.size)
     (hrem : 0 < rem) : PoolInv (poolMug fuel w p pl rem).1 :=
